@@ -606,7 +606,15 @@ class MainTransformer(object):
             return None
         target = self._transformer.lookup_typenode(typeval)
         if isinstance(target, ast.Alias):
-            return self._get_transfer_default_returntype_basic(target.target)
+            # Follow a typedef of a typedef to the first level that decides
+            seen = set()
+            while isinstance(target, ast.Alias) and id(target) not in seen:
+                seen.add(id(target))
+                basic = self._get_transfer_default_returntype_basic(target.target)
+                if basic or not target.target.target_giname:
+                    return basic
+                target = self._transformer.lookup_typenode(target.target)
+            return None
         elif (isinstance(target, ast.Boxed)
               or (isinstance(target, (ast.Record, ast.Union))
                   and (target.gtype_name is not None or target.foreign))):
